@@ -18,6 +18,7 @@ function tables `0 = xi, 2..5 = xi1t, xi1r, xi2t, xi2r`; two-index tables `2..5 
 `6..9 = y1t, y1r, y2t, y2r`, `_12`: `1 = xi1, 0 = xi2`, `_c0c1`: `1 = c0, 0 = c1`).
 -/
 import CompmechVerif.Bardell.Lifts
+import CompmechVerif.Bardell.MapLifts
 import CompmechVerif.Model.IntegrateLemmas
 import CompmechVerif.Gen.CTables.FuncCheck
 import CompmechVerif.Gen.CTables.FullFfCheck
@@ -514,9 +515,10 @@ theorem sub_fxixifxixi_integral (i j : Nat) (hi : i < 30) (hj : j < 30) (env : N
 
 /-- PARTIAL (value level): `integral_ff_c0c1(c0, c1, i, j, flags)` is within `10⁻¹³·Σ|wanted coefficient|·|monomial|`
 of the polynomial `mapWant` in `(c0, c1, flags)`.  `mapWant` is *defined* as the binomial expansion
-`Σ_{a,t} (D^0 u_j)_{a+t}·C(a+t,t)·(∫_{-1}^{1} D^0 u_i(ξ)·ξ^t dξ)·c0^a·c1^t` times the flag monomial; what is missing in Lean is
-the proof that this expansion equals `∫_{-1}^{1} D^0 u_i(ξ)·D^0 u_j(c0 + c1·ξ) dξ` (the coefficients are compared with an
-independent exact oracle for all 900 pairs by the validation V instead). -/
+`Σ_{a,t} (D^0 u_j)_{a+t}·C(a+t,t)·(∫_{-1}^{1} D^0 u_i(ξ)·ξ^t dξ)·c0^a·c1^t` times the flag monomial; that this
+expansion equals `∫_{-1}^{1} D^0 u_i(ξ)·D^0 u_j(c0 + c1·ξ) dξ` is proved in `Bardell/MapLemmas.lean`
+(`evalTerms_mapWant_real`), and the FULL statement against that integral is now `map_ff_integral` below; this
+intermediate form (valid in every ordered field) is kept. -/
 theorem map_ff_value_partial (i j : Nat) (hi : i < 30) (hj : j < 30) (env : Nat → K) :
     |(entry Gen.MapFfAll.rows i j).eval env * (((dbasis 0 i).den * (dbasis 0 j).den * intL : Nat) : K)
         - evalTerms env (mapWant (flagKey2 i j) (mus (dbasis 0 i).num) (dbasis 0 j).num)| * ((tolSubD : Nat) : K)
@@ -525,9 +527,10 @@ theorem map_ff_value_partial (i j : Nat) (hi : i < 30) (hj : j < 30) (env : Nat 
 
 /-- PARTIAL (value level): `integral_ffxi_c0c1(c0, c1, i, j, flags)` is within `10⁻¹³·Σ|wanted coefficient|·|monomial|`
 of the polynomial `mapWant` in `(c0, c1, flags)`.  `mapWant` is *defined* as the binomial expansion
-`Σ_{a,t} (D^1 u_j)_{a+t}·C(a+t,t)·(∫_{-1}^{1} D^0 u_i(ξ)·ξ^t dξ)·c0^a·c1^t` times the flag monomial; what is missing in Lean is
-the proof that this expansion equals `∫_{-1}^{1} D^0 u_i(ξ)·D^1 u_j(c0 + c1·ξ) dξ` (the coefficients are compared with an
-independent exact oracle for all 900 pairs by the validation V instead). -/
+`Σ_{a,t} (D^1 u_j)_{a+t}·C(a+t,t)·(∫_{-1}^{1} D^0 u_i(ξ)·ξ^t dξ)·c0^a·c1^t` times the flag monomial; that this
+expansion equals `∫_{-1}^{1} D^0 u_i(ξ)·D^1 u_j(c0 + c1·ξ) dξ` is proved in `Bardell/MapLemmas.lean`
+(`evalTerms_mapWant_real`), and the FULL statement against that integral is now `map_ffxi_integral` below; this
+intermediate form (valid in every ordered field) is kept. -/
 theorem map_ffxi_value_partial (i j : Nat) (hi : i < 30) (hj : j < 30) (env : Nat → K) :
     |(entry Gen.MapFfxiAll.rows i j).eval env * (((dbasis 0 i).den * (dbasis 1 j).den * intL : Nat) : K)
         - evalTerms env (mapWant (flagKey2 i j) (mus (dbasis 0 i).num) (dbasis 1 j).num)| * ((tolSubD : Nat) : K)
@@ -536,9 +539,10 @@ theorem map_ffxi_value_partial (i j : Nat) (hi : i < 30) (hj : j < 30) (env : Na
 
 /-- PARTIAL (value level): `integral_fxif_c0c1(c0, c1, i, j, flags)` is within `10⁻¹³·Σ|wanted coefficient|·|monomial|`
 of the polynomial `mapWant` in `(c0, c1, flags)`.  `mapWant` is *defined* as the binomial expansion
-`Σ_{a,t} (D^0 u_j)_{a+t}·C(a+t,t)·(∫_{-1}^{1} D^1 u_i(ξ)·ξ^t dξ)·c0^a·c1^t` times the flag monomial; what is missing in Lean is
-the proof that this expansion equals `∫_{-1}^{1} D^1 u_i(ξ)·D^0 u_j(c0 + c1·ξ) dξ` (the coefficients are compared with an
-independent exact oracle for all 900 pairs by the validation V instead). -/
+`Σ_{a,t} (D^0 u_j)_{a+t}·C(a+t,t)·(∫_{-1}^{1} D^1 u_i(ξ)·ξ^t dξ)·c0^a·c1^t` times the flag monomial; that this
+expansion equals `∫_{-1}^{1} D^1 u_i(ξ)·D^0 u_j(c0 + c1·ξ) dξ` is proved in `Bardell/MapLemmas.lean`
+(`evalTerms_mapWant_real`), and the FULL statement against that integral is now `map_fxif_integral` below; this
+intermediate form (valid in every ordered field) is kept. -/
 theorem map_fxif_value_partial (i j : Nat) (hi : i < 30) (hj : j < 30) (env : Nat → K) :
     |(entry Gen.MapFxifAll.rows i j).eval env * (((dbasis 1 i).den * (dbasis 0 j).den * intL : Nat) : K)
         - evalTerms env (mapWant (flagKey2 i j) (mus (dbasis 1 i).num) (dbasis 0 j).num)| * ((tolSubD : Nat) : K)
@@ -547,9 +551,10 @@ theorem map_fxif_value_partial (i j : Nat) (hi : i < 30) (hj : j < 30) (env : Na
 
 /-- PARTIAL (value level): `integral_fxifxi_c0c1(c0, c1, i, j, flags)` is within `10⁻¹³·Σ|wanted coefficient|·|monomial|`
 of the polynomial `mapWant` in `(c0, c1, flags)`.  `mapWant` is *defined* as the binomial expansion
-`Σ_{a,t} (D^1 u_j)_{a+t}·C(a+t,t)·(∫_{-1}^{1} D^1 u_i(ξ)·ξ^t dξ)·c0^a·c1^t` times the flag monomial; what is missing in Lean is
-the proof that this expansion equals `∫_{-1}^{1} D^1 u_i(ξ)·D^1 u_j(c0 + c1·ξ) dξ` (the coefficients are compared with an
-independent exact oracle for all 900 pairs by the validation V instead). -/
+`Σ_{a,t} (D^1 u_j)_{a+t}·C(a+t,t)·(∫_{-1}^{1} D^1 u_i(ξ)·ξ^t dξ)·c0^a·c1^t` times the flag monomial; that this
+expansion equals `∫_{-1}^{1} D^1 u_i(ξ)·D^1 u_j(c0 + c1·ξ) dξ` is proved in `Bardell/MapLemmas.lean`
+(`evalTerms_mapWant_real`), and the FULL statement against that integral is now `map_fxifxi_integral` below; this
+intermediate form (valid in every ordered field) is kept. -/
 theorem map_fxifxi_value_partial (i j : Nat) (hi : i < 30) (hj : j < 30) (env : Nat → K) :
     |(entry Gen.MapFxifxiAll.rows i j).eval env * (((dbasis 1 i).den * (dbasis 1 j).den * intL : Nat) : K)
         - evalTerms env (mapWant (flagKey2 i j) (mus (dbasis 1 i).num) (dbasis 1 j).num)| * ((tolSubD : Nat) : K)
@@ -558,14 +563,80 @@ theorem map_fxifxi_value_partial (i j : Nat) (hi : i < 30) (hj : j < 30) (env : 
 
 /-- PARTIAL (value level): `integral_fxixifxixi_c0c1(c0, c1, i, j, flags)` is within `10⁻¹³·Σ|wanted coefficient|·|monomial|`
 of the polynomial `mapWant` in `(c0, c1, flags)`.  `mapWant` is *defined* as the binomial expansion
-`Σ_{a,t} (D^2 u_j)_{a+t}·C(a+t,t)·(∫_{-1}^{1} D^2 u_i(ξ)·ξ^t dξ)·c0^a·c1^t` times the flag monomial; what is missing in Lean is
-the proof that this expansion equals `∫_{-1}^{1} D^2 u_i(ξ)·D^2 u_j(c0 + c1·ξ) dξ` (the coefficients are compared with an
-independent exact oracle for all 900 pairs by the validation V instead). -/
+`Σ_{a,t} (D^2 u_j)_{a+t}·C(a+t,t)·(∫_{-1}^{1} D^2 u_i(ξ)·ξ^t dξ)·c0^a·c1^t` times the flag monomial; that this
+expansion equals `∫_{-1}^{1} D^2 u_i(ξ)·D^2 u_j(c0 + c1·ξ) dξ` is proved in `Bardell/MapLemmas.lean`
+(`evalTerms_mapWant_real`), and the FULL statement against that integral is now `map_fxixifxixi_integral` below; this
+intermediate form (valid in every ordered field) is kept. -/
 theorem map_fxixifxixi_value_partial (i j : Nat) (hi : i < 30) (hj : j < 30) (env : Nat → K) :
     |(entry Gen.MapFxixifxixiAll.rows i j).eval env * (((dbasis 2 i).den * (dbasis 2 j).den * intL : Nat) : K)
         - evalTerms env (mapWant (flagKey2 i j) (mus (dbasis 2 i).num) (dbasis 2 j).num)| * ((tolSubD : Nat) : K)
       ≤ ((tolSubN : Nat) : K) * absTerms env (mapWant (flagKey2 i j) (mus (dbasis 2 i).num) (dbasis 2 j).num) :=
   checkE_sound (map_fxixifxixi_ok i j hi hj) env
+
+/-- `integral_ff_c0c1(c0, c1, i, j, flags)` for all `i, j < 30`, all real `c0 = env 1`, `c1 = env 0` and flags is
+within `10⁻¹³ · |flags| · absMapOf c0 c1 p q / (dp·dq)` of
+`x-flag_i · y-flag_j · ∫_{-1}^{1} D^0 u_i(ξ) · D^0 u_j(c0 + c1·ξ) dξ`, where `p/dp = D^0 u_i`, `q/dq = D^0 u_j` (integer numerators
+over the explicit denominators) and `absMapOf c0 c1 p q = Σ_m |q_m| · Σ_{k≤m} |c0|^k · |c1|^(m−k) · C(m,k) · |∫_{-1}^{1} p(ξ)·ξ^(m−k) dξ|`
+is the binomial expansion of the integral with every term replaced by its modulus. -/
+theorem map_ff_integral (i j : Nat) (hi : i < 30) (hj : j < 30) (env : Nat → ℝ) :
+    |(entry Gen.MapFfAll.rows i j).eval env
+        - flagX env i * flagY env j *
+          ∫ x in (-1 : ℝ)..1, (dbasis 0 i).eval x * (dbasis 0 j).eval (env 1 + env 0 * x)|
+      ≤ 1 / 10 ^ 13 * (|flagX env i * flagY env j| * absMapOf (env 1) (env 0) (dbasis 0 i).num (dbasis 0 j).num
+          / (((dbasis 0 i).den : ℝ) * ((dbasis 0 j).den : ℝ))) :=
+  map_value_real hi hj (map_ff_ok i j hi hj) env
+
+/-- `integral_ffxi_c0c1(c0, c1, i, j, flags)` for all `i, j < 30`, all real `c0 = env 1`, `c1 = env 0` and flags is
+within `10⁻¹³ · |flags| · absMapOf c0 c1 p q / (dp·dq)` of
+`x-flag_i · y-flag_j · ∫_{-1}^{1} D^0 u_i(ξ) · D^1 u_j(c0 + c1·ξ) dξ`, where `p/dp = D^0 u_i`, `q/dq = D^1 u_j` (integer numerators
+over the explicit denominators) and `absMapOf c0 c1 p q = Σ_m |q_m| · Σ_{k≤m} |c0|^k · |c1|^(m−k) · C(m,k) · |∫_{-1}^{1} p(ξ)·ξ^(m−k) dξ|`
+is the binomial expansion of the integral with every term replaced by its modulus. -/
+theorem map_ffxi_integral (i j : Nat) (hi : i < 30) (hj : j < 30) (env : Nat → ℝ) :
+    |(entry Gen.MapFfxiAll.rows i j).eval env
+        - flagX env i * flagY env j *
+          ∫ x in (-1 : ℝ)..1, (dbasis 0 i).eval x * (dbasis 1 j).eval (env 1 + env 0 * x)|
+      ≤ 1 / 10 ^ 13 * (|flagX env i * flagY env j| * absMapOf (env 1) (env 0) (dbasis 0 i).num (dbasis 1 j).num
+          / (((dbasis 0 i).den : ℝ) * ((dbasis 1 j).den : ℝ))) :=
+  map_value_real hi hj (map_ffxi_ok i j hi hj) env
+
+/-- `integral_fxif_c0c1(c0, c1, i, j, flags)` for all `i, j < 30`, all real `c0 = env 1`, `c1 = env 0` and flags is
+within `10⁻¹³ · |flags| · absMapOf c0 c1 p q / (dp·dq)` of
+`x-flag_i · y-flag_j · ∫_{-1}^{1} D^1 u_i(ξ) · D^0 u_j(c0 + c1·ξ) dξ`, where `p/dp = D^1 u_i`, `q/dq = D^0 u_j` (integer numerators
+over the explicit denominators) and `absMapOf c0 c1 p q = Σ_m |q_m| · Σ_{k≤m} |c0|^k · |c1|^(m−k) · C(m,k) · |∫_{-1}^{1} p(ξ)·ξ^(m−k) dξ|`
+is the binomial expansion of the integral with every term replaced by its modulus. -/
+theorem map_fxif_integral (i j : Nat) (hi : i < 30) (hj : j < 30) (env : Nat → ℝ) :
+    |(entry Gen.MapFxifAll.rows i j).eval env
+        - flagX env i * flagY env j *
+          ∫ x in (-1 : ℝ)..1, (dbasis 1 i).eval x * (dbasis 0 j).eval (env 1 + env 0 * x)|
+      ≤ 1 / 10 ^ 13 * (|flagX env i * flagY env j| * absMapOf (env 1) (env 0) (dbasis 1 i).num (dbasis 0 j).num
+          / (((dbasis 1 i).den : ℝ) * ((dbasis 0 j).den : ℝ))) :=
+  map_value_real hi hj (map_fxif_ok i j hi hj) env
+
+/-- `integral_fxifxi_c0c1(c0, c1, i, j, flags)` for all `i, j < 30`, all real `c0 = env 1`, `c1 = env 0` and flags is
+within `10⁻¹³ · |flags| · absMapOf c0 c1 p q / (dp·dq)` of
+`x-flag_i · y-flag_j · ∫_{-1}^{1} D^1 u_i(ξ) · D^1 u_j(c0 + c1·ξ) dξ`, where `p/dp = D^1 u_i`, `q/dq = D^1 u_j` (integer numerators
+over the explicit denominators) and `absMapOf c0 c1 p q = Σ_m |q_m| · Σ_{k≤m} |c0|^k · |c1|^(m−k) · C(m,k) · |∫_{-1}^{1} p(ξ)·ξ^(m−k) dξ|`
+is the binomial expansion of the integral with every term replaced by its modulus. -/
+theorem map_fxifxi_integral (i j : Nat) (hi : i < 30) (hj : j < 30) (env : Nat → ℝ) :
+    |(entry Gen.MapFxifxiAll.rows i j).eval env
+        - flagX env i * flagY env j *
+          ∫ x in (-1 : ℝ)..1, (dbasis 1 i).eval x * (dbasis 1 j).eval (env 1 + env 0 * x)|
+      ≤ 1 / 10 ^ 13 * (|flagX env i * flagY env j| * absMapOf (env 1) (env 0) (dbasis 1 i).num (dbasis 1 j).num
+          / (((dbasis 1 i).den : ℝ) * ((dbasis 1 j).den : ℝ))) :=
+  map_value_real hi hj (map_fxifxi_ok i j hi hj) env
+
+/-- `integral_fxixifxixi_c0c1(c0, c1, i, j, flags)` for all `i, j < 30`, all real `c0 = env 1`, `c1 = env 0` and flags is
+within `10⁻¹³ · |flags| · absMapOf c0 c1 p q / (dp·dq)` of
+`x-flag_i · y-flag_j · ∫_{-1}^{1} D^2 u_i(ξ) · D^2 u_j(c0 + c1·ξ) dξ`, where `p/dp = D^2 u_i`, `q/dq = D^2 u_j` (integer numerators
+over the explicit denominators) and `absMapOf c0 c1 p q = Σ_m |q_m| · Σ_{k≤m} |c0|^k · |c1|^(m−k) · C(m,k) · |∫_{-1}^{1} p(ξ)·ξ^(m−k) dξ|`
+is the binomial expansion of the integral with every term replaced by its modulus. -/
+theorem map_fxixifxixi_integral (i j : Nat) (hi : i < 30) (hj : j < 30) (env : Nat → ℝ) :
+    |(entry Gen.MapFxixifxixiAll.rows i j).eval env
+        - flagX env i * flagY env j *
+          ∫ x in (-1 : ℝ)..1, (dbasis 2 i).eval x * (dbasis 2 j).eval (env 1 + env 0 * x)|
+      ≤ 1 / 10 ^ 13 * (|flagX env i * flagY env j| * absMapOf (env 1) (env 0) (dbasis 2 i).num (dbasis 2 j).num
+          / (((dbasis 2 i).den : ℝ) * ((dbasis 2 j).den : ℝ))) :=
+  map_value_real hi hj (map_fxixifxixi_ok i j hi hj) env
 
 end lifted
 
@@ -646,6 +717,21 @@ example : checkE tolFuncN tolFuncD (.prod [.lit 742857142857143 15, .var 2, .var
 /-- the checker rejects a wrong flag (`y2t` instead of `y1t`) -/
 example : checkE tolFuncN tolFuncD (.prod [.lit 742857142857143 15, .var 2, .var 8])
     (fullWant (flagKey2 0 0) (dbasis 0 0).num (dbasis 0 0).num) ((dbasis 0 0).den * (dbasis 0 0).den * intL) = false := by
+  decide +kernel
+
+/-- the mapped-argument theorem at a concrete pair, flags resolved (`u₀` carries the flag `x1t = env 2`, `u₄` none):
+`integral_ff_c0c1(c0, c1, 0, 4, …)` against `x1t · ∫_{-1}^{1} u₀(ξ)·u₄(c0 + c1·ξ) dξ` -/
+example (env : Nat → ℝ) :
+    |(entry Gen.MapFfAll.rows 0 4).eval env
+        - env 2 * ∫ x in (-1 : ℝ)..1, (dbasis 0 0).eval x * (dbasis 0 4).eval (env 1 + env 0 * x)|
+      ≤ 1 / 10 ^ 13 * (|env 2| * absMapOf (env 1) (env 0) (dbasis 0 0).num (dbasis 0 4).num
+          / (((dbasis 0 0).den : ℝ) * ((dbasis 0 4).den : ℝ))) := by
+  simpa [flagX, flagY] using map_ff_integral 0 4 (by norm_num) (by norm_num) env
+
+/-- the exact side of the mapped-argument tables is not trivial: `∫_{-1}^{1} u₀ = 1`, `∫_{-1}^{1} u₀·ξ = −2/5`
+(`(mus p)[t] = intL·∫ p·ξ^t` with `p = 8·u₀`), and `diags[4][3] = C(7,3) = 35` -/
+example : (mus (dbasis 0 0).num).getD 0 0 = 8 * (intL : Int) ∧ (mus (dbasis 0 0).num).getD 1 0 * 5 = -(16 * (intL : Int))
+    ∧ (diags.getD 4 []).getD 3 0 = 35 := by
   decide +kernel
 
 end Compmech.C10.Props
